@@ -151,3 +151,68 @@ CHECKS["C16"] = dict(
     jobs=[dict(name="c16", src=API, build="gasan", mode="c16", cases=(1500000, 20000000), require=["calls_measured", "callbacks", "verify_measured"]),
           dict(name="c16O2", src=API, build="plainO2", mode="c16", cases=(1500000, 20000000), require=["calls_measured"])],
 )
+
+WRITER = ["w_writer.c", "vh.c"]
+ENGINE_NOTES["w_writer.c"] = "writer monitors: piece model at every capacity (C04/C09), clean restart (C12), canonical-encoding sweeps and round trips (C05)"
+CHECKS["C04"] = dict(
+    level_text="Every generated write-call list (well-formed or not, 1-14 calls over the whole writer API, sources in exact-size blocks) is executed at EVERY capacity 0..T+2 into a destination that really has "
+               "that capacity (exact-size heap block under ASan, alternating with a canary-tailed block; canary form for capacity 0), and compared with an independent piece model: per-call return value, "
+               "counter == exact size at every capacity, RANGE iff too small, stored prefix, untouched remainder. Exhaustive over capacities per list, sampled over lists.",
+    technique="runtime monitor with independent piece model + exact-size destinations under ASan/UBSan, exhaustive capacity sweep per generated call list",
+    level_note=LVL_NOTE,
+    title="Writer never writes past its buffer and always reports the exact size",
+    rule="one case = one write-call list, run once per capacity 0..T+2 (lists with T > 2500: every capacity within 300 of either end and within 2 of every piece boundary, plus a stride); "
+         "non-trivial = encoded size >= 2; distinct = hash(call list with arguments)",
+    exhaustive_note="per list: all capacities 0..T+2 (T <= 2500)",
+    assumptions=["lengths > INT32_MAX (FORMAT, needs a > 2 GiB source) and NULL data pointers are outside the workload", "binson_writer_verify is never called on an overflowed writer (no property covers it)"],
+    jobs=[dict(name="c04", src=WRITER, build="gasan", mode="c04", cases=(150000, 2500000), require=["capacity_runs", "write_calls"]),
+          dict(name="c04clang", src=WRITER, build="casan", mode="c04", cases=(0, 400000), thorough_only=True),
+          dict(name="c04vg", src=WRITER, build="plainO1g", mode="c04", cases=(0, 1600), thorough_only=True, wrap="valgrind -q --error-exitcode=99 --undef-value-errors=no", timeout=7200)],
+)
+CHECKS["C05"] = dict(
+    level_text="The writer's bytes are compared with an independent encoder and decoded back with the real parser: every integer within 2^14 (quick) / 2^16 (thorough) of +-2^k for k=0..63, "
+               "ALL 2^32 32-bit integers (thorough), random 64-bit integers and double bit patterns, every string/bytes/name length 0..70000 (thorough; boundary bands quick), and random well-formed "
+               "write sequences derived from trees (verify, writer_verify, full decode-back). Exhaustive over the stated integer and length ranges, sampled elsewhere.",
+    technique="differential runtime monitor: writer vs independent canonical encoder, exhaustive integer/length sweeps, round trip through the real parser, ASan+UBSan",
+    level_note=LVL_NOTE,
+    title="Writer output is the canonical encoding and round-trips through the parser",
+    rule="c05i: one evaluation = one integer written into an exact-size [v] document; c05d: one double; c05s: one (length, kind) with random content; c05t: one well-formed call sequence derived from a random tree. "
+         "non-trivial = every c05t sequence with >= 3 calls, every length, every 256th swept integer/double (hash-sampled to bound memory); distinct = hash of the value / length+kind / encoding",
+    exhaustive_note="integers +-(2^k+d), k=0..63, |d|<=2^14 (quick) / 2^16 (thorough); all 2^32 int32 values (thorough, gcc -O2 build); all lengths 0..70000 x {string,bytes,name} (thorough)",
+    assumptions=["vt_encode / ve_int / ve_strlike in harness/vh.c are the canonical encoding"],
+    jobs=[dict(name="c05i", src=WRITER, build="gasan", mode="c05i", cases=(4000000, 40000000), opt=("bits=14", "bits=16"), require=["integers_swept", "integers_random"]),
+          dict(name="c05all32", src=WRITER, build="plainO2", mode="c05i", cases=(0, 4294967296), opt="all32", thorough_only=True, require=["integers_swept"]),
+          dict(name="c05d", src=WRITER, build="gasan", mode="c05d", cases=(4000000, 40000000), require=["doubles"]),
+          dict(name="c05s", src=WRITER, build="gasan", mode="c05s", cases=(4872, 210003), require=["lengths_checked"]),
+          dict(name="c05t", src=WRITER, build="gasan", mode="c05t", cases=(600000, 8000000), require=["write_calls", "values_decoded_back", "writer_verify_checked"])],
+)
+
+STREAM = ["w_stream.c", "vh.c"]
+ENGINE_NOTES["w_stream.c"] = "adaptive traversals over arbitrary bytes: verdict equality with verify (C08), error latching (C09 parser part)"
+CHECKS["C08"] = dict(
+    level_text="For every generated byte string (valid trees, corpus, 1-3 mutations, token soup, nesting around max_depth) the verdict of init+verify on a fresh parser is compared with the outcome of 8 (quick) / 16 "
+               "(thorough) complete adaptive traversals on fresh parsers - enter-everything, skip-everything, lookups-only, get_raw-everything, to_writer-everything, leave-at-first-opportunity and random mixes - "
+               "driven only by the parser's answers. Any disagreement in either direction is a violation. Exploration over inputs x strategies.",
+    technique="differential runtime monitor: adaptive streaming traversal outcome vs verify on the same bytes, per strategy, ASan+UBSan",
+    level_note=LVL_NOTE,
+    title="Streaming traversal is exactly as strict as verify",
+    rule="one case = one byte string x max_depth (also at/below/above the needed depth) x root kind, traversed by every strategy; success = init, every go_into/leave/get_raw/to_writer true and error NONE after the top-level leave "
+         "(next/lookup answering false are answers). non-trivial = >= 3 bytes; distinct = hash(bytes, root kind, max_depth). Traversals ended by the step cap (4*size+64 calls) are counted as inconclusive, not judged",
+    assumptions=["verify's own verdict is tied to the specification by C02"],
+    jobs=[dict(name="c08", src=STREAM, build="gasan", mode="c08", cases=(300000, 6000000), require=["documents_valid", "documents_invalid", "traversals"])],
+)
+CHECKS["C09"] = dict(
+    level_text="Parser: every error class (RANGE by truncation, FORMAT by mutation, WRONG_TYPE by _ensure calls, STATE by get_name in a root array, MAX_DEPTH_OBJECT/ARRAY by ladders, NULL by field_with_length(NULL)) "
+               "is provoked by a directed scenario at random positions of an adaptive walk; the public error field is watched after every call, and from the first call that sets it 20 further calls drawn from all "
+               "advancing calls and getters must fail / be neutral with the indicator still set. Writer: the C04 piece model at every capacity, with NULL-data failures added, checks after every later call that it "
+               "returns false, stores nothing, the counter keeps counting and the indicator stays set.",
+    technique="runtime monitor watching the public error indicator after every call; directed fault scenarios per error class + piece model for the writer, ASan+UBSan",
+    level_note=LVL_NOTE,
+    title="Errors latch: one check at the end is enough",
+    rule="c09p: one case = one scenario (9 directed classes round-robin) -> episode of 20 calls after the first error; evidence counters after_<CLASS>_<call> give the class x call matrix. "
+         "c09w: one case = one write-call list (incl. write_raw(NULL)) run at every capacity. non-trivial = an episode was reached / encoded size >= 2; distinct = hash(bytes, class, depth) / hash(call list)",
+    assumptions=["'stays set' = error_flags != NONE (the code may change, e.g. NULL over FORMAT)", "the episode ends at reset/init/verify (and print/to_string, which are verify-based); C12 covers what follows"],
+    jobs=[dict(name="c09p", src=STREAM, build="gasan", mode="c09p", cases=(400000, 8000000),
+               require=["episodes", "errors_RANGE", "errors_FORMAT", "errors_WRONG_TYPE", "errors_STATE", "errors_MAX_DEPTH_OBJECT", "errors_MAX_DEPTH_ARRAY", "errors_NULL"]),
+          dict(name="c09w", src=WRITER, build="gasan", mode="c09w", cases=(60000, 1500000), require=["capacity_runs"])],
+)
